@@ -397,6 +397,8 @@ func (c *Ctx) c15Accept(serve, loopFn *ssa.Function, memo map[*ssa.Function]int)
 		key := fname(serve) + ":call-" + g.Name()
 		if (rm != nil && (g == rm || c.reachesFunc(g, rm, map[*ssa.Function]bool{}))) || c.reachesHandler(g, false, memo) {
 			r.Fail("R3", key, c.pos(call), fmt.Sprintf("the accept loop calls %s synchronously, which reads messages / runs handlers: one connection can block or crash the listener", fname(g)))
+		} else if io := c.reachesConnIO(g, map[*ssa.Function]bool{}); io != "" {
+			r.Fail("R3", key, c.pos(call), fmt.Sprintf("the accept loop calls %s synchronously, which performs I/O on the accepted connection (%s): one stalled peer keeps the listener from accepting anyone else", fname(g), io))
 		} else {
 			r.Ok("R3", key, c.pos(call), "call on the accept goroutine neither reads messages nor reaches a handler")
 		}
@@ -566,3 +568,42 @@ func loadedGlobal(v ssa.Value) *ssa.Global {
 }
 
 var _ = types.Identical
+
+// reachesConnIO: g (or a library function it calls) performs blocking I/O on a connection: a TLS handshake, or
+// Read / Write on a net.Conn, io.Reader, io.Writer or bufio wrapper. Returns a description ("" if none).
+func (c *Ctx) reachesConnIO(g *ssa.Function, seen map[*ssa.Function]bool) string {
+	if g == nil || g.Blocks == nil || seen[g] || !c.P.IsLibrary(g) {
+		return ""
+	}
+	seen[g] = true
+	for _, ci := range flow.CallInstrs(g) {
+		if _, isGo := ci.(*ssa.Go); isGo {
+			continue
+		}
+		com := ci.Common()
+		if com.IsInvoke() {
+			switch com.Method.Name() {
+			case "Read", "Write", "Handshake", "ReadAtLeast", "ReadAny", "ReadStream", "WriteStream":
+				t := com.Value.Type()
+				if flow.TypeIs(t, "net", "Conn") || flow.TypeIs(t, "io", "Reader") || flow.TypeIs(t, "io", "Writer") || flow.TypeIs(t, pkgDiam, "MultistreamConn") {
+					return com.Method.Name() + " on " + t.String()
+				}
+			}
+			continue
+		}
+		if o := flow.CalleeObj(ci); o != nil && o.Pkg() != nil {
+			if o.Pkg().Path() == "crypto/tls" && (o.Name() == "Handshake" || o.Name() == "HandshakeContext") {
+				return "tls." + o.Name()
+			}
+			if o.Pkg().Path() == "io" && (o.Name() == "ReadFull" || o.Name() == "ReadAtLeast" || o.Name() == "Copy") {
+				return "io." + o.Name()
+			}
+		}
+		if h := flow.StaticCallee(ci); h != nil {
+			if d := c.reachesConnIO(h, seen); d != "" {
+				return d
+			}
+		}
+	}
+	return ""
+}
